@@ -158,7 +158,8 @@ def input_class(spec, dump_kw):
         if c == "'/' in label":
             return "constraint label containing '/'"
     large = ' with 65535 or more cases in total' if 'linear_sparse' in spec else ''
-    return f"{spec['kind']}{large} {label_class(spec['labels'])} {dump_kw or 'defaults'}"
+    real = ' built under REAL_INTERACTIONS (squared REAL terms)' if spec.get('real_interactions') else ''
+    return f"{spec['kind']}{large}{real} {label_class(spec['labels'])} {dump_kw or 'defaults'}"
 
 
 # ------------------------------------------------------------------ per kind
@@ -250,6 +251,13 @@ def qm_case(ctx, r, B, spec):
              sample=dict(kind='qm', source=F.emit(spec), nbytes=len(data)) if r.random() < .03 else None)
     ctx.tick('qm ' + ('labelled' if list(m.variables) != list(range(n)) else 'range'))
     ctx.tick(f'qm bounds: {bounds_class(spec)} ({spec["dtype"]})')
+    if spec.get('real_interactions'):
+        vts = [vt for vt, _, _ in spec['vartypes']]
+        sq = sum(1 for i, j, _ in spec['quad'] if i == j and vts[i] == 'REAL')
+        rr = any(i != j and vts[i] == 'REAL' and vts[j] == 'REAL' for i, j, _ in spec['quad'])
+        ro = any((vts[i] == 'REAL') != (vts[j] == 'REAL') for i, j, _ in spec['quad'])
+        ctx.tick(f"qm built under REAL_INTERACTIONS: {'one squared REAL term' if sq == 1 else 'several squared REAL terms'}"
+                 f"{', REAL-REAL interaction' if rr else ''}{', REAL-other interaction' if ro else ''}")
     check_property(ctx, spec, m, 'qm', data, kw, which=None if r.random() < .25 else ['from_file(bytes)', 'fileview.load(BytesIO)'])
     pre, fver, text, hend = F.split_header(data)
     hv = json.loads(text)
@@ -968,9 +976,12 @@ def run(ctx):
     label_cases(ctx, r, B)
     json_cases(ctx, r, B)
     bundled(ctx, B)
-    for kind, fn in (('bqm', bqm_case), ('qm', qm_case), ('cqm', cqm_case), ('dqm', dqm_case)):
+    # 'qm real': QMs built under dimod.REAL_INTERACTIONS = True (squared REAL terms, REAL-REAL / REAL-other interactions)
+    counts['qm real'] = ctx.scale(70, 700)
+    specs = dict(F.SPECS, **{'qm real': F.spec_qm_real})
+    for kind, fn in (('bqm', bqm_case), ('qm', qm_case), ('qm real', qm_case), ('cqm', cqm_case), ('dqm', dqm_case)):
         for _ in range(counts[kind]):
-            spec = F.SPECS[kind](r, big)
+            spec = specs[kind](r, big)
             try:
                 fn(ctx, r, B, spec)
             except Exception as e:  # noqa
@@ -978,7 +989,7 @@ def run(ctx):
                 try:
                     F.build(spec).to_file()
                 except Exception as e2:  # noqa
-                    ctx.fail('property', f'{F.cls_of(kind).__name__}.to_file', label_class(spec['labels'] + [c['label'] for c in spec.get('constraints', [])]),
+                    ctx.fail('property', f'{F.cls_of(spec["kind"]).__name__}.to_file', label_class(spec['labels'] + [c['label'] for c in spec.get('constraints', [])]),
                              f'to_file raised {type(e2).__name__}: {e2}', repro=F.PRELUDE + F.emit(spec) + 'm.to_file()\n', detail=dict(spec=spec))
                 else:
                     raise e
